@@ -3,8 +3,31 @@
    Rows are flattened integer lists.  Definitions only. *)
 From Coq Require Import ZArith List Bool Arith.
 Import ListNotations.
-From FV.C08 Require Import Table Model Corr.
-From FV.C09 Require Import Model.
+From FV.C09 Require Import Table AttrModel Model.
+
+(* comparison helpers (rows are flattened integer lists) *)
+Definition row := list Z.
+
+Fixpoint row_eqb (a b : row) : bool :=
+  match a, b with
+  | [], [] => true
+  | x :: a', y :: b' => Z.eqb x y && row_eqb a' b'
+  | _, _ => false
+  end.
+
+Fixpoint list_eqb' {A} (eqb : A -> A -> bool) (a b : list A) : bool :=
+  match a, b with
+  | [], [] => true
+  | x :: a', y :: b' => eqb x y && list_eqb' eqb a' b'
+  | _, _ => false
+  end.
+
+Definition ent_eqb (a b : Z * row) := Z.eqb (fst a) (fst b) && row_eqb (snd a) (snd b).
+Definition table_eqb := list_eqb' ent_eqb.
+Definition rows_eqb := list_eqb' row_eqb.
+Definition zs_eqb := list_eqb' Z.eqb.
+Definition nats_eqb := list_eqb' Nat.eqb.
+Definition block_eqb (a b : nat * table row) := Nat.eqb (fst a) (fst b) && table_eqb (snd a) (snd b).
 
 Inductive cop :=
 | CutEids (sel : list Z)
